@@ -177,7 +177,7 @@ Proof. intros H. unfold ps_right, ps_apply_perm, ps_shift. rewrite ps_rename_com
   intros i. unfold right_mode. f_equal. lia. Qed.
 
 (* the code's order coincides with it when the segment starts on mode 0 *)
-Theorem ps_code_min0 pv p : is_identity pv = false -> ps_code 0 pv p = ps_right 0 pv p.
+Theorem ps_code_old_min0 pv p : is_identity pv = false -> ps_code false 0 pv p = ps_right 0 pv p.
 Proof. intros H. unfold ps_code, ps_right, ps_shift, ps_apply_perm. rewrite H. rewrite !ps_rename_comp.
   apply ps_rename_ext. intros i. rewrite !Nat.add_0_r. reflexivity. Qed.
 
@@ -190,7 +190,7 @@ Proof. revert a i. induction n as [|n IH]; simpl; intros a i H. lia.
   replace (a =? a + S i) with false by (symmetry; apply Nat.eqb_neq; lia).
   f_equal. replace (a + S i) with (S a + i) by lia. apply IH. lia. Qed.
 (* ... and when no PERM was needed (the right modes already sit on min, min+1, ...) *)
-Theorem ps_code_identity mn pv p : is_identity pv = true -> ps_code mn pv p = ps_right mn pv p.
+Theorem ps_code_old_identity mn pv p : is_identity pv = true -> ps_code false mn pv p = ps_right mn pv p.
 Proof. intros H. unfold ps_code, ps_right, ps_shift, ps_apply_perm. rewrite H. rewrite ps_rename_comp.
   apply ps_rename_ext. intros i. unfold pfun. rewrite invert_length.
   replace (inb mn (length pv) (i + mn)) with (i <? length pv).
@@ -203,11 +203,19 @@ Proof. intros H. unfold ps_code, ps_right, ps_shift, ps_apply_perm. rewrite H. r
   simpl in Hx. rewrite Hx. lia. Qed.
 
 (* the general statement is false of the code: permute-then-shift moves the wrong modes when min > 0 *)
-Theorem ps_code_refuted : exists mn pv p s,
-  permok pv /\ ps_eval (ps_code mn pv p) s <> ps_eval (ps_right mn pv p) s.
+Theorem ps_code_old_refuted : exists mn pv p s,
+  permok pv /\ ps_eval (ps_code false mn pv p) s <> ps_eval (ps_right mn pv p) s.
 Proof. exists 1, [1; 0], (PCmp [0] CEq 1), [0; 0; 1]. split.
   - apply is_perm_ok. reflexivity.
   - vm_compute. discriminate. Qed.
+
+(* the code as it is now (shift, then permute inside the span): the re-expression, for every mapping *)
+Theorem ps_code_now mn pv p : ps_code true mn pv p = ps_right mn pv p.
+Proof. unfold ps_code. destruct (is_identity pv) eqn:E; [|reflexivity].
+  rewrite <- (ps_code_old_identity mn pv p E). unfold ps_code. rewrite E. reflexivity. Qed.
+Theorem ps_code_now_eval mn pv p s nR : ps_bound nR p ->
+  ps_eval (ps_code true mn pv p) s = ps_eval p (pullback (right_mode mn pv) nR s).
+Proof. rewrite ps_code_now. apply ps_right_eval. Qed.
 
 (* ------------------------------------------------------------------ generate_permutation *)
 Lemma lmax_ge l x : In x l -> x <= lmax l.
@@ -390,6 +398,21 @@ Proof. intros Hi Hn HnR Hu Hj Hnk.
     by (symmetry; apply inb_false; lia).
   rewrite andb_false_r. simpl. split; apply delta_pfun; auto. Qed.
 
+(* plain component, code as it is now ([PERM; component; PERM^-1], 7bb2f795): wired there and back, and every mode
+   that is not a key of the mapping is fixed, for ALL injective mappings *)
+Theorem comp_wiring_now n m kw (Uc : mat R) k v k' v' :
+  injective_onto m -> (lmin (keys m) + span m <= n)%nat -> (v < kw)%nat -> (v' < kw)%nat ->
+  In (k, v) (filled m) -> In (k', v') (filled m) ->
+  comp_seg true n (lmin (keys m)) (perm_vect m) kw Uc k' k = Uc v' v.
+Proof. apply proc_wiring. Qed.
+Theorem comp_untouched_now n m kw (Uc : mat R) u j :
+  injective_onto m -> (lmin (keys m) + span m <= n)%nat -> (kw <= length m)%nat ->
+  (u < n)%nat -> (j < n)%nat -> ~ In u (keys m) ->
+  comp_seg true n (lmin (keys m)) (perm_vect m) kw Uc u j = delta u j /\
+  comp_seg true n (lmin (keys m)) (perm_vect m) kw Uc j u = delta j u.
+Proof. apply proc_untouched. Qed.
+
+(* ---- the code before 7bb2f795: [PERM; component] ---- *)
 (* plain component: light leaving left mode k enters input v = mapping k (it is not brought back) *)
 Theorem comp_enters n m kw (Uc : mat R) k v i :
   injective_onto m -> (lmin (keys m) + span m <= n)%nat -> (i < n)%nat -> In (k, v) (filled m) ->
@@ -525,11 +548,12 @@ Proof. induction ports as [|p r IH]; simpl; intros e. auto.
   rewrite H1, H2, H3, H4, H5. auto. Qed.
 
 Variable tb : nat -> mat R -> mat R.
+Variable cf : cfg.
 
 (* Experiment.add(mapping, processor), when it succeeds: the heralds of the result are those of the left-hand
    side followed by one new herald per herald of the added processor, in order, with the same expected value;
    their detectors are appended in the same order; the modes of interest are unchanged *)
-Theorem add_proc_heralds e mp r keep e' seg : add_proc tb e mp r keep = (e', true, seg) ->
+Theorem add_proc_heralds e mp r keep e' seg : add_proc tb cf e mp r keep = (e', true, seg) ->
   exists m0 m',
     heralds_of (e_out e') = heralds_of (drop_ports keep e m0) ++
       map (fun p => (key_of m' (hd 0 (p_range p)), expected_of p)) (filter is_herald_port (e_out r)) /\
@@ -538,7 +562,7 @@ Theorem add_proc_heralds e mp r keep e' seg : add_proc tb e mp r keep = (e', tru
     e_dets e' = e_dets e ++ map (fun h => nth h (e_dets r) 0) (herald_modes r) /\
     e_nher e' = e_nher e + length (herald_modes r) /\ e_moi e' = e_moi e.
 Proof. unfold add_proc. intros H.
-  destruct (resolve_map _ _ _ _ _ mp) as [am|]; [|inversion H].
+  destruct (resolve_map _ _ _ _ _ _ mp) as [am|]; [|inversion H].
   destruct (check_consistency _ _ am && ps_allows e am); [|inversion H].
   set (m0 := to_nmap am) in *. set (m := with_heralds (csize e) m0 (herald_modes r)) in *.
   destruct (is_perm (perm_vect m)) eqn:Ep; [|inversion H].
